@@ -539,6 +539,48 @@ M('c02-bad-request-404-for-get', 'C02', 'R11', RESP,
 # negative controls (exit 0): `exc = HTTPRouteNotFound(); raise exc`; the async twin delegating to path_not_found(req, resp, **kwargs);
 # a request-dependent branch whose arms both raise HTTPRouteNotFound
 
+# R5 (wave 10 / k1-c02-2): the responder name is evaluated through locals bound on the path (also a hoisted conditional-expression local)
+M('c02-inline-suffix-wrong-separator', 'C02', 'R5', UTIL,
+  "            responder_name = 'on_' + method.lower()\n            if suffix:\n                responder_name += '_' + suffix\n",
+  "            responder_name = 'on_' + method.lower() + ('.' + suffix if suffix else '')\n")
+M2('c02-hoisted-suffix-inverted-test', 'C02', 'R5', [
+    {'file': UTIL, 'old': "    method_map = {}\n\n    for method in constants.COMBINED_METHODS:",
+     'new': "    method_map = {}\n    name_suffix = '' if suffix else '_' + suffix\n\n    for method in constants.COMBINED_METHODS:"},
+    {'file': UTIL, 'old': "            responder_name = 'on_' + method.lower()\n            if suffix:\n                responder_name += '_' + suffix\n\n"
+                          "            responder = getattr(resource, responder_name)\n",
+     'new': "            responder = getattr(resource, 'on_' + method.lower() + name_suffix)\n"}])
+M('c02-suffix-fstring-dropped', 'C02', 'R5', UTIL,
+  "            if suffix:\n                responder_name += '_' + suffix\n",
+  "            if suffix:\n                responder_name = f'{responder_name}'\n")
+# negative controls (exit 0): k1-c02-2 (name_suffix = '_' + suffix if suffix else '' hoisted, name built inline);
+# f'on_{method.lower()}_{suffix}' under `if suffix:`; 'on_{}_{}'.format(method.lower(), suffix); 'on_%s_%s' % (method.lower(), suffix)
+
+# R4 (s10-c02-1): the value the 405 closures keep is a materialised sequence on every path
+ALLOW_COMP = ("    allowed_methods = [\n        m for m in sorted(list(method_map.keys())) if m not in constants._META_METHODS\n    ]\n")
+M2('c02-allow-generator-materialised-on-one-branch', 'C02', 'R4', [
+    {'file': UTIL, 'old': ALLOW_COMP,
+     'new': "    allowed_methods = (\n        m for m in sorted(method_map) if m not in constants._META_METHODS\n    )\n"},
+    {'file': UTIL, 'old': "        opt_responder = responders.create_default_options(allowed_methods, asgi=asgi)\n",
+     'new': "        allowed_methods = list(allowed_methods)\n        opt_responder = responders.create_default_options(allowed_methods, asgi=asgi)\n"}])
+M('c02-allow-iter-when-options-implemented', 'C02', 'R4', UTIL,
+  "        allowed_methods.append('OPTIONS')\n",
+  "        allowed_methods.append('OPTIONS')\n    else:\n        allowed_methods = iter(allowed_methods)\n")
+# negative controls (exit 0): tuple(...) / sorted(...) of the comprehension; a generator expression re-bound by list(...) before the `if`;
+# a generator handed to a factory that takes `allowed_methods = tuple(allowed_methods)` once in its own body
+
+# R12 (s10-c02-3): a prefix that already is a pattern object is stored as it is
+SINK_PREFIX = ("        if not hasattr(prefix, 'match'):\n            # Assume it is a string\n            prefix = re.compile(prefix)\n"
+               "        else:\n            prefix = cast(Pattern[str], prefix)\n")
+M('c02-sink-prefix-recompiled-from-pattern', 'C02', 'R12', APP, SINK_PREFIX,
+  "        prefix = re.compile(getattr(prefix, 'pattern', prefix))\n")
+M('c02-sink-prefix-recompiled-in-else', 'C02', 'R12', APP,
+  "            prefix = cast(Pattern[str], prefix)\n", "            prefix = re.compile(prefix.pattern)\n")
+M('c02-sink-prefix-always-compiled', 'C02', 'R12', APP, SINK_PREFIX,
+  "        prefix = re.compile(prefix)\n")
+M('c02-sink-str-prefix-never-compiled', 'C02', 'R12', APP, SINK_PREFIX, "        prefix = cast(Pattern[str], prefix)\n")
+# negative controls (exit 0): `if isinstance(prefix, str): prefix = re.compile(prefix)`; `matcher = prefix if hasattr(prefix, 'match')
+# else re.compile(prefix)`; entry bound to a local tuple first; the cast dropped
+
 # C02 R4 (r4_allow) is also registered as C20 R6 (the preflight copies the same Allow value into
 # Access-Control-Allow-Methods): every R4 operator legitimately fires there too.
 from .mutants import MUTANTS as _ALL   # noqa: E402
